@@ -58,6 +58,14 @@ theorem req_of {α} [HasFail α] {c : Bool} (h : c = true) (k : α) : Go.req c k
 
 theorem req_true {α} [HasFail α] (k : α) : Go.req true k = k := rfl
 
+/-- a requirement under the right operand of `&&` / `||` is conditional on the left operand -/
+theorem req_or_of {α} [HasFail α] {g c : Bool} (h : c = true) (k : α) : Go.req (g || c) k = k := by
+  subst h; rw [Bool.or_true]; rfl
+
+theorem req_or_or_of {α} [HasFail α] {g g' c : Bool} (h : c = true) (k : α) :
+    Go.req (g || (g' || c)) k = k := by
+  subst h; rw [Bool.or_true, Bool.or_true]; rfl
+
 /-- a requirement that fails in a function body -/
 theorem req_false_bool {c : Bool} (h : c = false) (k : Bool) : Go.req c k = false := by
   subst h; rfl
@@ -691,7 +699,7 @@ theorem babyjub_PointFromSignAndY_ok_true (sign : Bool) (y : Int) : babyjub_Poin
         · rfl
         · split
           · rfl
-          · rw [req_of (babyjub_PointCoordSign_ok_true _), req_of (babyjub_PointCoordSign_ok_true _)]
+          · rw [req_or_of (babyjub_PointCoordSign_ok_true _), req_or_or_of (babyjub_PointCoordSign_ok_true _)]
             split
             · rw [req_of hQ]
             · rw [req_of hQ]
